@@ -183,6 +183,36 @@ func (c *enumCase) reference() string {
 	return sb.String()
 }
 
+// class names the structural classes of programs that esbuild, compiling every file in isolation, cannot
+// translate as tsc does (TypeScript itself rejects them under isolatedModules: TS18055, TS18056)
+func (c *enumCase) class() string {
+	modOf := map[string]int{}
+	for _, d := range c.Decls {
+		modOf[d.Name] = d.Mod
+	}
+	for _, d := range c.Decls {
+		cross := false // the previous member's value depends on an enum of another file
+		for _, m := range d.Mem {
+			if m.Auto {
+				if cross {
+					return "auto-increment-after-cross-module-reference"
+				}
+				continue
+			}
+			cross = false
+			for i, t := range m.JSrc {
+				if mod, ok := modOf[t]; ok && mod != d.Mod && i+1 < len(m.JSrc) && (m.JSrc[i+1] == "." || m.JSrc[i+1] == "[") {
+					cross = true
+				}
+			}
+			if cross && m.Val.T == "str" {
+				return "string-valued-cross-module-reference"
+			}
+		}
+	}
+	return ""
+}
+
 func (c *enumCase) multiFile() bool {
 	for _, d := range c.Decls {
 		if d.Mod == 1 {
@@ -392,7 +422,7 @@ func evalEnums(r *core.Run, cases []*enumCase, replay bool) {
 			}
 		}
 		for v := range p.names {
-			key := map[string]interface{}{"part": "enum", "program": c.ts(1, true) + c.ts(2, false), "variant": p.names[v], "error": p.errs[v]}
+			key := map[string]interface{}{"part": "enum", "program": c.ts(1, true) + c.ts(2, false), "variant": p.names[v], "error": p.errs[v], "class": c.class()}
 			det := map[string]interface{}{"case": c, "files": p.files, "variant": p.names[v], "expected": want, "labels": p.labels, "spec_exact": c.Exact}
 			if p.errs[v] != "" {
 				r.Violation(key, fmt.Sprintf("esbuild rejects a valid enum program (%s): %s\n%s", p.names[v], p.errs[v], src), det)
